@@ -5,8 +5,8 @@ props=[json.loads(l) for l in open('/verif/properties.jsonl')]
 HOOKS=subprocess.run(['git','-C','/repo','log','--format=%h %s'],capture_output=True,text=True).stdout.splitlines()
 hook_commits=[l.split()[0] for l in HOOKS if l.split(' ',1)[1].startswith('verif hooks')][::-1]
 C={}
-C['C01']=dict(tech="TLA+ reference semantics (NlSem) checked by TLC against recorded executions of the real eval (trace validation, one deterministic behaviour per program)",
- text="Every generated or corpus program is run by the real interpreter; the recorded outcome (value, printed text, error kind, output before the error) is validated by TLC against the definitional small-step semantics NlSem, state by state; corrupted observations are shown to be rejected on every run.",
+C['C01']=dict(tech="TLA+ reference semantics (NlSem) checked by TLC against recorded executions of the real eval (trace validation, one deterministic behaviour per program); translation validation of the real compiler's bytecode on the TLA+ opcode-level machine (NlVM); the design-level refinement NlVM o NlCompiler = NlSem model-checked by TLC on the specifications alone, with deliberate deviations of the translation scheme refuted on every run",
+ text="Every generated or corpus program is run by the real interpreter; the recorded outcome (value, printed text, error kind, output before the error) is validated by TLC against the definitional small-step semantics NlSem, state by state; corrupted observations are shown to be rejected on every run. The real compiler's code for each tree is run on the specified machine NlVM (same outcome required) and compared with the specified compiler NlCompiler (conformance, reported as evidence). Independently of the implementation, TLC checks on every tree of the translation leg, the fused-shape family and the control-flow templates that the specified machine running the specified compiler's code yields what NlSem says and that this code passes the bytecode verifier NlBcSafe.",
  ref="DESIGN.md 5 C01, 4",
  note="Trusted: TLC, the Json module, the recorder's projection of values (harness/src/proj.rs), rustc's f64/char primitives. Bounded: programs are sampled (seeded) plus the repository corpus; integers beyond 2^29 and inexact floats are skipped as DontKnow and counted.")
 C['C02']=dict(tech="TLA+ bytecode-contract verifier (NlBcSafe): TLC explores the abstract machine (region, ip, height) over the real compiler's output, all paths; effect table bound to the real VM by recorded dispatch events; guarded probes at the unsafe sites",
